@@ -62,8 +62,13 @@ def _get_composite_state_recur(
                 process_state = node.default_state()
             # Prevent multiupdates from forming when a single process has
             # multiple ports to the same stores holding a dictionary
+            # Work on a copy of the dictionaries: a process may return
+            # one that it keeps (from its parameters, say), and what its
+            # other ports, other processes and the caller's initial
+            # state add must not end up in it
             sub_state = inverse_topology(
-                path, process_state, sub_topology, multi_updates=False)
+                path, deep_copy_internal(process_state), sub_topology,
+                multi_updates=False)
         else:
             raise ValueError(f'invalid processes {sub_processes} or steps'
                              + str(sub_steps))
